@@ -635,7 +635,8 @@ namespace BitSerializer::Convert::Detail
 						{
 							constexpr uint64_t maxI64Negative = 9223372036854775808u;
 							if (value <= maxI64Negative) {
-								SafeAddDuration(duration, transformToDuration(-static_cast<int64_t>(value), sym, isDatePart));
+								// Negate as unsigned (negation of the lowest int64_t value is undefined)
+								SafeAddDuration(duration, transformToDuration(static_cast<int64_t>(0 - value), sym, isDatePart));
 							}
 							else {
 								throw std::out_of_range("ISO duration contains too big number");
